@@ -17,7 +17,7 @@
    (`exact` flag), so that the implementation's double arithmetic is exact on every emitted case.
    Nodes are integers = ranks in the lexicographic order of the real ids: NLow base ids sort before
    every concept id "c::..", the other base ids after; concept ids sort like their base ids.     *)
-EXTENDS Integers, Sequences, FiniteSets, TLC, Json
+EXTENDS GelCore, Json
 
 CONSTANTS NN, NLow,          \* base nodes 1..NN, the first NLow of them sort before "c::"
           D,                 \* 1.0 on the grid
@@ -39,45 +39,13 @@ NaNv == 3000000
 PInf == 2000000
 NInf == 0 - 2000000
 
-Abs(x) == IF x < 0 THEN 0 - x ELSE x
-MinI(a, b) == IF a <= b THEN a ELSE b
-MinOf(S) == CHOOSE x \in S : \A y \in S : x <= y
-MaxOf(S) == CHOOSE x \in S : \A y \in S : x >= y
-RECURSIVE Pow2(_)
-Pow2(n) == IF n = 0 THEN 1 ELSE 2 * Pow2(n - 1)
-RECURSIVE SumS(_, _)
-SumS(f, S) == IF S = {} THEN 0 ELSE LET t == CHOOSE t \in S : TRUE IN f[t] + SumS(f, S \ {t})
-
 BaseRank(i) == IF i <= NLow THEN i ELSE i + NN
 Base == {BaseRank(i) : i \in 1..NN}
 \* concept id of a cluster whose least member is b (a least member that is itself a concept node
 \* would give "c::c::.." - outside the alphabet, mapped to a dummy and guarded by PromoInAlphabet)
 ConceptOf(b) == IF b \in Base THEN NLow + (IF b <= NLow THEN b ELSE b - NN) ELSE 100 + b
-Canon(a, b) == IF a <= b THEN <<a, b>> ELSE <<b, a>>
 
 -----------------------------------------------------------------------------
-(* selection, generic in the comparison of scores (GelTrace instantiates it with encoded doubles):
-   positions 1..n; Act(i): qualifies; Bef(i, j): i listed strictly before j by (-score, id).  *)
-UsedOf(n, Act(_), Bef(_, _), k) ==
-    LET A == {i \in 1..n : Act(i)}
-        rank == [i \in A |-> Cardinality({j \in A : Bef(j, i) \/ (~Bef(i, j) /\ j < i)})]
-        m == MinI(k, Cardinality(A))
-    IN [r \in 1..m |-> CHOOSE i \in A : rank[i] = r - 1]
-
-\* position pairs (i < j) of a used list of length m in nested listing order, at most cap of them
-PairSeq(m, cap) ==
-    LET P == {p \in (1..m) \X (1..m) : p[1] < p[2]}
-        idx(p) == (p[1] - 1) * (m + 1) + p[2]
-        n == MinI(cap, Cardinality(P))
-        rk == [p \in P |-> Cardinality({q \in P : idx(q) < idx(p)})]
-    IN [r \in 1..n |-> CHOOSE p \in P : rk[p] = r - 1]
-
-\* independent reading of "among the top-k items above the threshold": ids of qualifying items
-\* with fewer than k strictly better qualifying items
-TopIdsOf(n, Act(_), Bef(_, _), k, IdAt(_)) ==
-    LET A == {i \in 1..n : Act(i)} IN
-    {IdAt(i) : i \in {j \in A : Cardinality({q \in A : Bef(q, j)}) < k}}
-
 ScoreGE(s, thr) == s # NaNv /\ s >= thr
 
 -----------------------------------------------------------------------------
@@ -103,15 +71,15 @@ Gated(gr, o) == [g |-> gr, exact |-> TRUE, obs |-> o]
 ObserveF(gr, c, on, items) ==
     IF ~on THEN Gated(gr, [op |-> "observe", gate |-> FALSE, items |-> items, used |-> <<>>, keys |-> <<>>])
     ELSE LET n == Len(items)
-             Act(i) == ScoreGE(items[i].s, c.thr)
-             Bef(i, j) == items[i].s > items[j].s \/ (items[i].s = items[j].s /\ items[i].id < items[j].id)
+             Act(i) == ScoreGE(items[i][2], c.thr)
+             Bef(i, j) == items[i][2] > items[j][2] \/ (items[i][2] = items[j][2] /\ items[i][1] < items[j][1])
              used == UsedOf(n, Act, Bef, c.topk)
              ps == PairSeq(Len(used), c.cap)
-             keys == [r \in 1..Len(ps) |-> Canon(items[used[ps[r][1]]].id, items[used[ps[r][2]]].id)]
+             keys == [r \in 1..Len(ps) |-> Canon(items[used[ps[r][1]]][1], items[used[ps[r][2]]][1])]
              r == ApplyKeys(gr.edges, keys, c)
          IN [g |-> [gr EXCEPT !.edges = r.e], exact |-> r.exact,
              obs |-> [op |-> "observe", gate |-> TRUE, items |-> items,
-                      used |-> [i \in 1..Len(used) |-> items[used[i]].id], keys |-> keys]]
+                      used |-> [i \in 1..Len(used) |-> items[used[i]][1]], keys |-> keys]]
 
 TickF(gr, c, on, n) ==
     IF ~on THEN Gated(gr, [op |-> "tick", gate |-> FALSE, n |-> n, dropped |-> {}])
@@ -134,12 +102,6 @@ RECURSIVE Ecc(_, _, _, _)
 Ecc(S, P, C, n) == IF C \subseteq S THEN n ELSE Ecc(Ball(S, P), P, C, n + 1)
 Diam(C, P) == MaxOf({Ecc({v}, P, C, 0) : v \in C})
 Inside(e, C) == {k \in DOMAIN e : k[1] \in C /\ k[2] \in C}
-
-\* sort a finite set by a strict total order
-SortBy(S, Lt(_, _)) ==
-    LET rk == [x \in S |-> Cardinality({y \in S : Lt(y, x)})]
-    IN [r \in 1..Cardinality(S) |-> CHOOSE x \in S : rk[x] = r - 1]
-Take(s, n) == SubSeq(s, 1, MinI(n, Len(s)))
 
 \* merge candidates: components of the strong-edge graph (|w| >= minw), size >= minsize,
 \* diameter <= maxdiam, average |w| over all edges inside; listed by (avg desc, size desc, ids)
@@ -210,7 +172,8 @@ PromoteF(gr, c, on) ==
 (* inputs: bags of items listed as non-decreasing sequences of item numbers *)
 NS == Len(Scores)
 NI == Len(ItemIds) * NS
-ItemOf(i) == [id |-> ItemIds[((i - 1) \div NS) + 1], s |-> Scores[((i - 1) % NS) + 1]]
+\* an item is a pair <<id, score>>
+ItemOf(i) == <<ItemIds[((i - 1) \div NS) + 1], Scores[((i - 1) % NS) + 1]>>
 NonDecr(s) == \A i \in 1..(Len(s) - 1) : s[i] <= s[i + 1]
 Bags == UNION {{s \in [1..n -> 1..NI] : NonDecr(s)} : n \in 0..MaxItems}
 ItemsOf(b) == [i \in 1..Len(b) |-> ItemOf(b[i])]
@@ -241,7 +204,10 @@ Next == \/ \E b \in Bags : Observe(ItemsOf(b))
         \/ Merge \/ Split \/ Promote \/ Gate
 Spec == Init /\ [][Next]_vars
 
-DepthOK == TLCGet("level") <= MaxDepth
+\* histories of at most MaxDepth operations: an ACTION constraint on the level of the *pre*-state, so
+\* that every generated transition is emitted and every reached state is checked
+DepthA == TLCGet("level") <= MaxDepth
+SpecD == Init /\ [][DepthA /\ Next]_vars
 
 -----------------------------------------------------------------------------
 (* C18 clauses *)
@@ -273,9 +239,9 @@ ObserveAtMostPairCap ==
 ObserveOnlyTopKAboveThreshold ==
     [][IsOp("observe") =>
          LET it == last'.items
-             Act(i) == ScoreGE(it[i].s, cfg.thr)
-             Bef(i, j) == it[i].s > it[j].s \/ (it[i].s = it[j].s /\ it[i].id < it[j].id)
-             IdAt(i) == it[i].id
+             Act(i) == ScoreGE(it[i][2], cfg.thr)
+             Bef(i, j) == it[i][2] > it[j][2] \/ (it[i][2] = it[j][2] /\ it[i][1] < it[j][1])
+             IdAt(i) == it[i][1]
              top == TopIdsOf(Len(it), Act, Bef, cfg.topk, IdAt)
          IN /\ \A k \in Touched : k[1] \in top /\ k[2] \in top
             /\ \A i \in 1..Len(last'.keys) : last'.keys[i][1] \in top /\ last'.keys[i][2] \in top
@@ -287,7 +253,6 @@ ObserveOrderInsensitive ==
          LET it == last'.items IN
          \A p \in Perms(Len(it)) : ObserveF(g, cfg, TRUE, [i \in 1..Len(it) |-> it[p[i]]]).g = g']_vars
 
-IsPrefix(s, t) == Len(s) <= Len(t) /\ s = SubSeq(t, 1, Len(s))
 MaintenanceOnlyAnnotatesOrAttaches ==
     [][/\ (IsOp("merge") \/ IsOp("split")) =>
             /\ g'.edges = E /\ g'.nodes = g.nodes
